@@ -46,6 +46,7 @@ REQUIRED_REACH = [
     "probe:probe_itself_fails",
     "probe:fresh_interpreter_probe",
     "probe:history_failed_the_way_the_probe_fails",
+    "probe:history_changed_working_directory",
     "probe:history_other_rom_type",
     "probe:history_used_probe_path",
     "probe:history_assembled_probe_text_under_other_layout",
@@ -137,8 +138,8 @@ def gen_history_program(rng: random.Random, idx: int) -> dict[str, Any]:
             prog.roles[f"{prefix}pool.tbl"] = "table"
     shared = None
     if rng.random() < 0.4:
-        shared = rng.choice(["shared.s", "shared.bin", "shared.tbl"])
-        text = {"shared.s": ".include 'shared.s'", "shared.bin": ".incbin 'shared.bin'", "shared.tbl": f".table 'shared.tbl'\n.text '{rng.choice(TEXT_POOL[:3] + TEXT_POOL[5:])}'"}[shared]
+        shared = rng.choice(["shared.s", "shared.bin", "shared.tbl", "shared.ips"])
+        text = {"shared.s": ".include 'shared.s'", "shared.bin": ".incbin 'shared.bin'", "shared.tbl": f".table 'shared.tbl'\n.text '{rng.choice(TEXT_POOL[:3] + TEXT_POOL[5:])}'", "shared.ips": f".include_ips 'shared.ips', {rng.choice(['-0x200', '0x1000', '0x10', '0'])}"}[shared]
         prog.root.append({"k": "stmt", "t": text})
     if rng.random() < 0.06:
         # a program that evaluates nothing after code generation: the abandoned evaluation below is the
@@ -193,8 +194,8 @@ def gen_probe(rng: random.Random) -> dict[str, Any]:
         negatives.append("table_chars")
     shared = None
     if rng.random() < 0.4:
-        shared = rng.choice(["shared.s", "shared.bin", "shared.tbl"])
-        text = {"shared.s": ".include 'shared.s'", "shared.bin": ".incbin 'shared.bin'", "shared.tbl": f".table 'shared.tbl'\n.text '{rng.choice(TEXT_POOL[:3] + TEXT_POOL[5:])}'"}[shared]
+        shared = rng.choice(["shared.s", "shared.bin", "shared.tbl", "shared.ips"])
+        text = {"shared.s": ".include 'shared.s'", "shared.bin": ".incbin 'shared.bin'", "shared.tbl": f".table 'shared.tbl'\n.text '{rng.choice(TEXT_POOL[:3] + TEXT_POOL[5:])}'", "shared.ips": f".include_ips 'shared.ips', {rng.choice(['-0x200', '0x1000', '0x10', '0'])}"}[shared]
         extra.append({"k": "stmt", "t": text})
     # place the extras before the trailing label table (keeps them in the last code section)
     pos = len(prog.root)
@@ -210,6 +211,7 @@ def gen_probe(rng: random.Random) -> dict[str, Any]:
 SHARED_V = {
     "shared.s": [b".db 1, 2, 3\nshared_l1:\n", b".db 9\nnop\nshared_l2:\n.dw 0x1234\n", b"inx\n", b".db 1,\n?\n", b"lda.q #1\n", b"{\nnop\n"],
     "shared.bin": [b"\x01\x02\x03\x04", b"\xff" * 9, b"\x00"],
+    "shared.ips": [b"PATCH\x2f\x00\x00\x00\x04ips1\x2f\x10\x00\x00\x00\x00\x08\x55EOF", b"PATCH\x2f\x00\x02\x00\x03abcEOF", b"PATCH\x2f\x00\x00\x00\x04ips1"],
     "shared.tbl": [b"41=A\n42=B\n43=C\n", b"61=A\n62=B\n", b"4100=A\n4200=B\n43=C\n", b"41=A\n82A0=\x82\xa0\n42=B\n", "41=A\n42=B\nE9=\u00e9\n".encode("utf-8"), "41=A\nE9=\u00e9\n".encode("latin-1")],
 }
 
@@ -239,16 +241,30 @@ def spec_for(entry: str, src: str, out_prefix: str, mapping: str, defines: list[
     return spec
 
 
+def root_positions(ops: list[dict[str, Any]]) -> list[int]:
+    """Indices at which an operation can be inserted while the working directory is the sandbox root."""
+    out = []
+    depth = 0
+    for i, op in enumerate(ops):
+        if depth == 0:
+            out.append(i)
+        if op["op"] == "chdir":
+            depth = 1 if op.get("path") else 0
+    if depth == 0:
+        out.append(len(ops))
+    return out
+
+
 def gen_case(cseed: int, tier: str) -> dict[str, Any]:
     h = core.substream(cseed, "history")
     w = core.substream(cseed, "workload")
     f = core.substream(cseed, "faults")
     n_ops = h.choice([1, 1, 2, 2, 3, 3, 4, 5, 6, 8, 12])
-    enabled = {k for k in ("valid", "map", "pool", "fail", "iocrash", "wcrash", "rewrite", "same_path", "torn") if h.random() < 0.6} | {"valid"}
+    enabled = {k for k in ("valid", "map", "pool", "fail", "iocrash", "wcrash", "rewrite", "same_path", "torn", "otherdir") if h.random() < 0.6} | {"valid"}
     same_path_ops: list[int] = []
     ops: list[dict[str, Any]] = []
     files: dict[str, bytes] = {k: v[0] for k, v in SHARED_V.items()}
-    roles: dict[str, str] = {"shared.s": "include", "shared.bin": "incbin", "shared.tbl": "table"}
+    roles: dict[str, str] = {"shared.s": "include", "shared.bin": "incbin", "shared.tbl": "table", "shared.ips": "ips_in"}
     for i in range(n_ops):
         kind = h.choice(sorted(enabled))
         if kind == "rewrite":
@@ -286,6 +302,8 @@ def gen_case(cseed: int, tier: str) -> dict[str, Any]:
             entry = h.choice(["string", "with_emitter"])
             writer_fail = f.choice([0, 0, 1, 2])
         src = f"h{i}.s" if h.random() < 0.75 else f"hsub{i % 2}/h{i}.s"  # sometimes next to nothing else, in a sub-directory
+        if kind == "otherdir":
+            src = f"h{i}.s"
         if kind == "same_path":
             # another program stored under the probe's own path, assembled, then replaced by the probe
             src = "probe.s"
@@ -305,6 +323,24 @@ def gen_case(cseed: int, tier: str) -> dict[str, Any]:
             main_bytes = main_bytes[:cut] + f.choice([b"", b"", b"\xc3", b"\xe3\x81", b"; caf\xc3"])
             entry = spec["entry"] = f.choice(["with_emitter", "assemble", "patch", "cli"])
             spec.update({k: v for k, v in spec_for(entry, src, f"h{i}_", prog.mapping, [list(d) for d in prog.defines], h).items() if k not in spec})
+        if kind == "otherdir":
+            # the caller visits another project directory: it changes into it, assembles there (relative
+            # names, that directory's own versions of the shared files), and comes back
+            d = f"proj{i % 2}"
+            pf[src] = main_bytes
+            for name in SHARED_V:
+                files[f"{d}/{name}"] = SHARED_V[name][1 + (i % (len(SHARED_V[name]) - 1))]
+                roles[f"{d}/{name}"] = roles[name]
+            files.update({f"{d}/{k}": v for k, v in pf.items()})
+            roles.update({f"{d}/{k}": v for k, v in pr.items()})
+            roles[f"{d}/{src}"] = "source"
+            spec["cwd"] = d
+            if spec.get("out"):
+                roles[f"{d}/{spec['out']}"] = "out_ips" if spec["out"].endswith(".ips") else "out_sfc"
+            ops.append({"op": "chdir", "path": d, "kind": "otherdir"})
+            ops.append({"op": "exec", "spec": spec, "knobs": {}, "faults": [], "kind": kind, "has_map": "map" in prog.features, "pool": hp["pool"], "mapping": prog.mapping, "insert_class": None})
+            ops.append({"op": "chdir", "path": "", "kind": "otherdir"})
+            continue
         roles[src] = "source"
         if kind == "same_path":
             ops.append({"op": "write_file", "path": "probe.s", "data": main_bytes, "kind": "same_path_write"})
@@ -345,7 +381,7 @@ def gen_case(cseed: int, tier: str) -> dict[str, Any]:
             sp2 = spec_for(h.choice(["string", "with_emitter", "assemble", "patch", "cli"]), "hsame.s", "hsame_", prog2.mapping, [list(d) for d in prog2.defines], h)
             if sp2.get("out"):
                 roles[sp2["out"]] = "out_ips" if sp2["out"].endswith(".ips") else "out_sfc"
-            ops.insert(h.randrange(0, len(ops) + 1), {"op": "exec", "spec": sp2, "knobs": {}, "faults": [], "kind": "same_failure", "has_map": "map" in prog2.features, "pool": hp2["pool"], "mapping": prog2.mapping, "insert_class": klass})
+            ops.insert(h.choice(root_positions(ops)), {"op": "exec", "spec": sp2, "knobs": {}, "faults": [], "kind": "same_failure", "has_map": "map" in prog2.features, "pool": hp2["pool"], "mapping": prog2.mapping, "insert_class": klass})
             break
     if w.random() < 0.12 and pprog.mapping == "low" and not probe.get("fails_by") and "map" not in pprog.features:
         # the probe touches the first bank of an unmapped range; a history program walks right up to
@@ -357,7 +393,7 @@ def gen_case(cseed: int, tier: str) -> dict[str, Any]:
         edge_src = f"*={last:#x}\n.db 0x42\n".encode()
         files["hedge.s"] = edge_src
         roles["hedge.s"] = "source"
-        ops.insert(h.randrange(0, len(ops) + 1), {"op": "exec", "spec": {"entry": h.choice(["string", "patch", "cli"]), "src": "hedge.s", "rom": "low", "mapping": "low", "out": "hedge_out.ips", "format": "ips", "defines": []}, "knobs": {}, "faults": [], "kind": "edge_walk", "has_map": False, "pool": False, "mapping": "low", "insert_class": "run_off_mapped_rom"})
+        ops.insert(h.choice(root_positions(ops)), {"op": "exec", "spec": {"entry": h.choice(["string", "patch", "cli"]), "src": "hedge.s", "rom": "low", "mapping": "low", "out": "hedge_out.ips", "format": "ips", "defines": []}, "knobs": {}, "faults": [], "kind": "edge_walk", "has_map": False, "pool": False, "mapping": "low", "insert_class": "run_off_mapped_rom"})
         roles["hedge_out.ips"] = "out_ips"
     pf = pprog.all_files()
     pr = pprog.all_roles()
@@ -383,7 +419,7 @@ def gen_case(cseed: int, tier: str) -> dict[str, Any]:
             st = spec_for(e, "probe.s", f"st{len(ops)}_", val if kind == "rom" else probe["rom"], val if kind == "defines" else probe["defines"], h)
             if st.get("out"):
                 roles[st["out"]] = "out_ips" if st["out"].endswith(".ips") else "out_sfc"
-            pos = h.randrange(0, len(ops) + 1)
+            pos = h.choice(root_positions(ops))
             if same_path_ops:
                 pos = 0  # before the probe's path is borrowed by another program
             ops.insert(pos, {"op": "exec", "spec": st, "knobs": {}, "faults": [], "kind": "same_text_" + kind, "has_map": False, "pool": False, "mapping": val if kind == "rom" else probe["rom"], "insert_class": None})
@@ -462,36 +498,6 @@ def final_files(case: dict[str, Any]) -> dict[str, bytes]:
     return files
 
 
-def _fresh_main(path: str) -> None:
-    """Entry for the fresh-interpreter cross-check (run as a subprocess)."""
-    with open(path, "rb") as f:
-        root, files, roles, spec = pickle.load(f)
-    core.import_repo()
-    res = entries.run_history(root, files, roles, [{"op": "exec", "spec": spec}])
-    sys.stdout.buffer.write(pickle.dumps(res[0]))
-
-
-def run_fresh(files: dict[str, bytes], roles: dict[str, str], spec: dict[str, Any], hashseed: str) -> dict[str, Any]:
-    root = simenv.new_sandbox()
-    try:
-        job = os.path.join(root, "__job.pickle")
-        work = os.path.join(root, "w")
-        os.makedirs(work)
-        with open(job, "wb") as f:
-            pickle.dump((work, files, roles, spec), f)
-        env = dict(os.environ, PYTHONHASHSEED=hashseed, PYTHONDONTWRITEBYTECODE="1", VERIF_REPO=core.REPO)
-        code = "import sys; sys.path.insert(0, %r); from sim.props.c19 import _fresh_main; _fresh_main(%r)" % (core.VERIF_DIR, job)
-        try:
-            p = subprocess.run(["/venv/bin/python", "-B", "-c", code], env=env, capture_output=True, timeout=120, cwd=core.VERIF_DIR)
-        except subprocess.TimeoutExpired:
-            raise core.ChildTimeout("fresh interpreter probe exceeded 120 s")
-        if p.returncode != 0 or not p.stdout:
-            raise core.HarnessError(f"fresh interpreter probe failed: rc={p.returncode} stderr={p.stderr[-500:]!r}")
-        return pickle.loads(p.stdout)
-    finally:
-        simenv.drop_sandbox(root)
-
-
 def run_case(case: dict[str, Any], stats: Stats) -> list[Violation]:
     files, roles, ops = case["files"], case["roles"], case["ops"]
     pspec = case["probe_spec"]
@@ -510,6 +516,10 @@ def run_case(case: dict[str, Any], stats: Stats) -> list[Violation]:
     kinds = [op.get("kind") for op in ops]
     crash_kinds = []
     for op, o in zip(ops, after):
+        if op["op"] == "chdir":
+            if op.get("path"):
+                stats.bump("probe:history_changed_working_directory")
+            continue
         if op["op"] != "exec":
             stats.bump("probe:history_used_probe_path" if str(op.get("kind", "")).startswith("same_path") else "probe:history_rewrote_shared_file")
             continue
@@ -552,7 +562,7 @@ def run_case(case: dict[str, Any], stats: Stats) -> list[Violation]:
         stats.state("interpreter", meta.get("fails_by"), pspec["entry"], r_alone["ok"])
     if case.get("fresh") and not out:
         for hs in ("0", "1", str(case["seed"] % 4294967295)):
-            fr = run_fresh(final_files(case), roles, pspec, hs)
+            fr = entries.run_fresh(final_files(case), roles, pspec, hs)
             stats.bump("probe:fresh_interpreter_probe")
             stats.add_outcome(fr)
             r_fresh = result_of(fr, pspec)
